@@ -7,7 +7,7 @@ import seedeval
 rows = []
 for d in sorted(os.listdir(os.path.join(ROOT, 'seeded'))):
     p = os.path.join(ROOT, 'seeded', d)
-    if not os.path.isdir(p):
+    if not os.path.isdir(p) or not os.path.exists(os.path.join(p, 'meta.json')):
         continue
     meta = json.load(open(os.path.join(p, 'meta.json')))
     pid = meta['breaks_property']
